@@ -41,7 +41,8 @@ def small_dag(rng: random.Random, size: int, density: float):
     unary = [pt.sin, pt.cos, pt.exp, lambda a: -a, lambda a: a * 2, lambda a: a + 1]
     binary = [lambda a, b: a + b, lambda a, b: a * b, lambda a, b: a - b, pt.maximum]
     other = [lambda a: pt.reshape(pt.reshape(a, (2, 2)).T, (4,)), lambda a: pt.roll(a, 1),
-             lambda a: pt.stack([a, a])[1], lambda a: pt.concatenate([a, a])[2:6], lambda a: a[::-1]]
+             lambda a: pt.stack([a, a])[1], lambda a: pt.concatenate([a, a])[2:6], lambda a: a[::-1],
+             pt.zeros_like, pt.ones_like]
     for _ in range(size):
         c = rng.random()
         # operands: half of the time among the three newest nodes (chains), else anywhere (fan-out)
@@ -70,17 +71,29 @@ def stored(expr) -> list:
             if any(isinstance(t, ImplStored) for t in (getattr(n, "tags", None) or ()))]
 
 
-def _without_tags(n):
-    try:
-        return n.without_tags(__import__("pytato").tags.ImplStored(), verify_existence=False)
-    except Exception:   # noqa: BLE001
-        return n
+def partners(a, b) -> dict[int, object] | None:
+    """id(node of a) -> the node of b at the same place (a and b: the same graph up to tags);
+    None when they do not have the same shape"""
+    out: dict[int, object] = {}
+
+    def rec(x, y) -> bool:
+        if id(x) in out:
+            return True
+        if type(x) is not type(y):
+            return False
+        out[id(x)] = y
+        cx = reflect.children(x, into_functions=True)
+        cy = reflect.children(y, into_functions=True)
+        if [lb for lb, _ in cx] != [lb for lb, _ in cy]:
+            return False
+        return all(rec(u, v) for (_, u), (_, v) in zip(cx, cy))
+    return out if rec(a, b) else None
 
 
 def check_idempotence(ctx, transformations, fingerprint):
     import pytato as pt
     T = {k: f for k, (f, props) in transformations.items() if "idempotent" in props}
-    N = 2500 if ctx.thorough else 450
+    N = 2500 if ctx.thorough else 360
     n = bad = changed_second = 0
     per = {k: 0 for k in T}
     acted = {k: 0 for k in T}
@@ -88,7 +101,7 @@ def check_idempotence(ctx, transformations, fingerprint):
     reported = set()
     for i in range(N):
         rng = random.Random(ctx.seed * 104729 + i)
-        size = rng.randint(3, 9)
+        size = rng.randint(3, 11)
         density = (0.0, 0.2, 0.45)[i % 3]
         spec = {"family": "c05_idempotence.small_dag", "seed": ctx.seed * 104729 + i, "size": size, "density": density}
         g0 = small_dag(rng, size, density)
@@ -99,13 +112,14 @@ def check_idempotence(ctx, transformations, fingerprint):
         pre = set(stored(g))
         for name, f in T.items():
             try:
-                once = f(g)
+                # (deduplicate gets the graph as built; the others require a deduplicated one)
+                once = f(g0 if name == "deduplicate" else g)
             except Exception:   # noqa: BLE001  (the main batch reports a transformation raising)
                 continue
             n += 1
             per[name] += 1
             s1 = set(stored(once))
-            acted[name] += (once != g)
+            acted[name] += fingerprint(once) != fingerprint(g0 if name == "deduplicate" else g)
             pre_above += bool(pre) and len(s1) > len(pre)
             problem = None
             try:
@@ -121,10 +135,14 @@ def check_idempotence(ctx, transformations, fingerprint):
                                f"{[type(x).__name__ for x in (s2 ^ s1)][:4]}")
                 elif not (twice == once) or fingerprint(twice) != fingerprint(once):
                     problem = ("not-idempotent", "the second application changes the graph")
-            if problem is None and name != "eliminate_dead_code":
-                # (dead code elimination may drop a stored node that nothing uses)
-                lost = [x for x in pre if x not in s1 and _without_tags(x) not in {_without_tags(y) for y in s1}]
-                if lost and name == "materialize_with_mpms":
+            if problem is None and name == "materialize_with_mpms":
+                # only adds decisions: the node at the place of one the user stored is stored
+                pm = partners(g, once)
+                ids1 = {id(x) for x in stored(once)}
+                lost = None if pm is None else [x for x in stored(g) if id(pm[id(x)]) not in ids1]
+                if pm is None:
+                    problem = ("changes-more-than-tags", "the result does not have the shape of the argument")
+                elif lost:
                     problem = ("drops-user-decision", f"{len(lost)} node(s) tagged ImplStored beforehand are not afterwards")
             if problem is None:
                 continue
